@@ -1,22 +1,27 @@
 (* C14 -- n_latest_tracks returns the most recently updated tracks.
-   Statements only; proofs live in Proofs/TrackerProofs.v.  The model is pyais/tracker.py after
-   `fix: n_latest_tracks() returns the newest tracks of an ordered tracker`.
+   Statements only; proofs live in Proofs/TrackerCbProofs.v.  The model is pyais/tracker.py after
+   `fix: n_latest_tracks() returns the newest tracks of an ordered tracker`, in its general form (Model/Tracker.v
+   `trkc_step`): the subscriber callbacks may raise.
+
+   reachable_any nattrs st : st is the state after ANY history, whatever the subscribers did -- also after operations
+   that were left by the exception of a subscriber (n_latest_tracks only needs the structural invariants, which every
+   state satisfies; Props/C13.v C13_structural_invariants).
 
    mlu tr = (mmsi, last_updated).  sp_top_n n all r (Spec/TrackerSpec.v): r has min(n, |all|) elements with pairwise
    different MMSIs, all of them in `all`, and no element of `all` left out has a later last_updated than one in r. *)
 From Coq Require Import ZArith List Bool.
-Require Import Prim.Exn Prim.IntDict Model.Tracker Spec.TrackerSpec Proofs.TrackerProofs.
+Require Import Prim.Exn Prim.IntDict Model.Tracker Spec.TrackerSpec Proofs.TrackerProofs Proofs.TrackerCbProofs.
 Import ListNotations.
 Open Scope Z_scope.
 
 (* For every state reachable by any history, every n >= 0 (also beyond the number of tracks), both modes; in
    unordered mode the result is sorted newest first; the result consists of tracks of the tracker. *)
 Theorem C14_top_n : forall (V : Type) (nattrs : nat) (st : trk_tracker V) (n : Z),
-  reachable nattrs st -> 0 <= n ->
+  reachable_any nattrs st -> 0 <= n ->
   sp_top_n n (map mlu (trk_tracks st)) (map mlu (trk_n_latest_tracks st n)) /\
   (t_ordered st = false -> sp_newest_first (map mlu (trk_n_latest_tracks st n))) /\
   incl (trk_n_latest_tracks st n) (trk_tracks st).
-Proof. exact (fun V => @n_latest_correct V). Qed.
+Proof. exact (fun V => @n_latest_correct_c V). Qed.
 Print Assumptions C14_top_n.
 
 (* The boolean forms evaluated by the check on the implementation's outputs are these propositions. *)
@@ -31,13 +36,30 @@ Print Assumptions C14_order_oracle_is_spec.
 (* non-vacuity: an ordered tracker with three tracks; n = 2 selects the two NEWEST (the unrepaired code returned the
    two oldest, 111 and 222) in insertion order; n = 5 returns all three in insertion order (tests/test_tracker.py) *)
 Example C14_nonvacuous :
-  let h := [OpUpdate 0 (mkMsg 111 [MPresent (Some 1)]) (Some 1);
-            OpUpdate 0 (mkMsg 222 [MPresent (Some 2)]) (Some 2);
-            OpUpdate 0 (mkMsg 333 [MPresent (Some 3)]) (Some 3)] in
-  let st := fst (trk_run 1 (trk_init None true) h) in
+  let q := @trk_env_quiet Z in
+  let h := [(q, OpUpdate 0 (mkMsg 111 [MPresent (Some 1)]) (Some 1));
+            (q, OpUpdate 0 (mkMsg 222 [MPresent (Some 2)]) (Some 2));
+            (q, OpUpdate 0 (mkMsg 333 [MPresent (Some 3)]) (Some 3))] in
+  let st := fst (trkc_run 1 (trk_init None true) h) in
   map (@tr_mmsi Z) (trk_n_latest_tracks st 2) = [222; 333] /\
   map (@tr_mmsi Z) (trk_n_latest_tracks st 5) = [111; 222; 333] /\
   trk_n_latest_tracks st 0 = [] /\
-  let su := fst (trk_run 1 (trk_init None false) h) in
+  let su := fst (trkc_run 1 (trk_init None false) h) in
   map (@tr_mmsi Z) (trk_n_latest_tracks su 2) = [333; 222].
+Proof. vm_compute. repeat split. Qed.
+
+(* non-vacuity with subscribers that raise: a CREATED subscriber raises for vessel 222 (update() raises, the track is in
+   the table), a DELETED subscriber raises KeyError (swallowed) -- the states reached are states of the theorem and the
+   answers are the newest tracks *)
+Example C14_nonvacuous_raising :
+  let en := @trk_env_of Z [(7, CREATED, Some 222, Py ValueError); (7, DELETED, None, Py KeyError)] [] in
+  let h := [(en, OpAttach CREATED 7); (en, OpAttach DELETED 7);
+            (en, OpUpdate 0 (mkMsg 111 [MPresent (Some 1)]) (Some 1));
+            (en, OpUpdate 0 (mkMsg 222 [MPresent (Some 2)]) (Some 2));
+            (en, OpUpdate 0 (mkMsg 333 [MPresent (Some 3)]) (Some 3));
+            (en, OpPop 111)] in
+  let run := trkc_run 1 (trk_init None true) h in
+  map (@rc_exn Z) (snd run) = [None; None; None; Some (Py ValueError); None; None] /\
+  map (@tr_mmsi Z) (trk_n_latest_tracks (fst run) 1) = [333] /\
+  map (@tr_mmsi Z) (trk_n_latest_tracks (fst run) 3) = [222; 333].
 Proof. vm_compute. repeat split. Qed.
